@@ -38,9 +38,11 @@
 package c06
 
 import (
+	"context"
 	"encoding/json"
 	"fmt"
 	"os"
+	"reflect"
 	"sort"
 	"strings"
 	"syscall"
@@ -785,6 +787,8 @@ func TestC06(t *testing.T) {
 	}
 	bd := tierBounds()
 	pathConversionCheck(rep)
+	_ = os.MkdirAll(runDir+"/w0/r", 0o755)
+	rep.Coverage["name_resemblance_probes"] = namesDoNotMatter(rep, runDir+"/w0/r")
 
 	visited := map[string]bool{}
 	var frontier []stateRec
@@ -947,6 +951,75 @@ func replayCase(s *search, path string) {
 // pathConversionCheck: ConvertToAbsolutePath / ConvertToRelativePath do not touch the tree; they are checked once, on
 // both backend types, against the obvious model (join with the root and clean; the relative path that leads from the
 // root to the path) and against each other (round trip).
+// namesDoNotMatter: copying or moving an entry to a destination whose NAME merely resembles the source's (it begins with
+// the source's name, or differs by one character) gives what the same call gives with an unrelated name, up to that name.
+// A metamorphic family beside the model: both runs are made on fresh copies of one tree, on both backends.
+func namesDoNotMatter(rep *ev.Reporter, osRoot string) int {
+	base := tree{"a": {Dir: true}, "a/f.t": {Content: "x"}, "a/b": {Dir: true}, "a/b/g.t": {Content: "yy"}, "c.t": {Content: "z"}}
+	type probe struct{ op, src, dst, ref string }
+	var probes []probe
+	for _, op := range []string{"Copy", "CopyToDirectory", "Move", "MoveBetweenFS"} {
+		for _, d := range []string{"ab", "ab/", "a.b", "aa", "a-copy", "a~"} {
+			ref := "zq"
+			if strings.HasSuffix(d, "/") {
+				ref = "zq/"
+			}
+			probes = append(probes, probe{op, "a", d, ref})
+		}
+		for _, d := range []string{"a/b.bak", "a/bb", "a/b2/"} {
+			ref := "a/zq"
+			if strings.HasSuffix(d, "/") {
+				ref = "a/zq/"
+			}
+			probes = append(probes, probe{op, "a/b", d, ref})
+		}
+		probes = append(probes, probe{op, "c.t", "c.tt", "zq"}, probe{op, "a/f.t", "a/f.t.bak", "a/zq"})
+	}
+	run := func(b *backend, op, src, dst string) (bool, tree, error) {
+		if err := b.materialise(base); err != nil {
+			return false, nil, err
+		}
+		ctx := context.Background()
+		var err error
+		switch op {
+		case "Copy":
+			err = b.fs.CopyWithContext(ctx, b.abs(src), b.abs(dst))
+		case "CopyToDirectory":
+			err = b.fs.CopyToDirectoryWithContext(ctx, b.abs(src), b.abs(dst))
+		case "Move":
+			err = b.fs.MoveWithContext(ctx, b.abs(src), b.abs(dst))
+		case "MoveBetweenFS":
+			err = filesystem.MoveBetweenFS(ctx, b.fs, b.abs(src), b.fs, b.abs(dst))
+		}
+		t, _, _ := b.dump()
+		return err == nil, t, nil
+	}
+	n := 0
+	for _, b := range []*backend{newMemBackend(), newOSBackend(osRoot)} {
+		for _, p := range probes {
+			ok1, t1, e1 := run(b, p.op, p.src, p.dst)
+			ok2, t2, e2 := run(b, p.op, p.src, p.ref)
+			if e1 != nil || e2 != nil {
+				rep.EngineError("names family: %v %v", e1, e2)
+				return n
+			}
+			n++
+			from, to := strings.TrimSuffix(p.ref, "/"), strings.TrimSuffix(p.dst, "/")
+			renamed := tree{}
+			for k, v := range t2 {
+				if k == from || strings.HasPrefix(k, from+"/") {
+					k = to + strings.TrimPrefix(k, from)
+				}
+				renamed[k] = v
+			}
+			if ok1 != ok2 || !reflect.DeepEqual(t1, renamed) {
+				rep.Violation(fmt.Sprintf("%s:%s:result-depends-on-the-destination-name-resembling-the-source-name", p.op, b.name), map[string]any{"source": p.src, "destination": p.dst, "reference_destination": p.ref, "succeeded": ok1, "reference_succeeded": ok2, "tree": fmt.Sprint(t1), "reference_tree_renamed": fmt.Sprint(renamed)})
+			}
+		}
+	}
+	return n
+}
+
 func pathConversionCheck(rep *ev.Reporter) {
 	cases := 0
 	for _, b := range []*backend{newMemBackend(), {name: "os", root: sandboxPrefix + "000000000000/w0/r", ctl: &control{isOS: true}}} {
